@@ -8,17 +8,272 @@ package test
 // message, one flow message per record in record order, carrying the message header fields.
 // ---------------------------------------------------------------------------
 
-//@ // frame only: the field-by-field mapping of record elements to FlowType1 fields is NOT specified; the header fields are not touched
+// ---------------------------------------------------------------------------
+// Field mapping (C19): every mapped flow-message field carries the value of the LAST record element of the mapped name
+// (the loop overwrites), converted without loss (uint16/uint8 widen to uint32). The three address fields are text
+// renderings (net.IP.String, abstract here): they are in the frame but their value is not specified.
+// `given j0`: an arbitrary element index; the clauses hold for every j0.
+// ---------------------------------------------------------------------------
+
+//@ pure kElems(r entities.Record) []entities.InfoElementWithValue = r.(*baseRecord).orderedElementList
+//@ pure kMsgRecs(m *entities.Message) []entities.Record = m.set.(*entities.set).records
+//@ pure kRecOK(r entities.Record) bool = is(r, *dataRecord) && r.(*dataRecord) != nil && (forall j in [0, len(kElems(r))): wfElemA(kElems(r)[j]))
+//@ // kLastTo: j is the last element called name among the first n elements
+//@ pure kLastTo(r entities.Record, name string, j int, n int) bool = 0 <= j && j < n && ie(kElems(r)[j]).Name == name && (forall k in [j+1, n): ie(kElems(r)[k]).Name != name)
+//@ pure kLast(r entities.Record, name string, j int) bool = kLastTo(r, name, j, len(kElems(r)))
+//@ pure kIsU32(e entities.InfoElementWithValue) bool = (dt(e) == Unsigned32 || dt(e) == DateTimeSeconds)
+//@ pure kU32(e entities.InfoElementWithValue) int = is(e, *Unsigned32InfoElement) ? e.(*Unsigned32InfoElement).value : e.(*DateTimeSecondsInfoElement).value
+//@ pure kU16(e entities.InfoElementWithValue) int = e.(*Unsigned16InfoElement).value
+//@ pure kU8(e entities.InfoElementWithValue) int = e.(*Unsigned8InfoElement).value
+//@ pure kU64(e entities.InfoElementWithValue) int = e.(*Unsigned64InfoElement).value
+//@ pure kStr(e entities.InfoElementWithValue) string = e.(*StringInfoElement).value
+
+//@ // kFlowType1Kinds: the elements the convertor reads have the data type its getter needs (the getters panic otherwise)
+//@ pure kFlowType1Kinds(r entities.Record) bool = forall j in [0, len(kElems(r))):
+//@     (ie(kElems(r)[j]).Name == "flowStartSeconds" ==> kIsU32(kElems(r)[j]))
+//@     && (ie(kElems(r)[j]).Name == "flowEndSeconds" ==> kIsU32(kElems(r)[j]))
+//@     && (ie(kElems(r)[j]).Name == "sourceIPv4Address" ==> (dt(kElems(r)[j]) == Ipv4Address || dt(kElems(r)[j]) == Ipv6Address))
+//@     && (ie(kElems(r)[j]).Name == "sourceIPv6Address" ==> (dt(kElems(r)[j]) == Ipv4Address || dt(kElems(r)[j]) == Ipv6Address))
+//@     && (ie(kElems(r)[j]).Name == "destinationIPv4Address" ==> (dt(kElems(r)[j]) == Ipv4Address || dt(kElems(r)[j]) == Ipv6Address))
+//@     && (ie(kElems(r)[j]).Name == "destinationIPv6Address" ==> (dt(kElems(r)[j]) == Ipv4Address || dt(kElems(r)[j]) == Ipv6Address))
+//@     && (ie(kElems(r)[j]).Name == "sourceTransportPort" ==> dt(kElems(r)[j]) == Unsigned16)
+//@     && (ie(kElems(r)[j]).Name == "destinationTransportPort" ==> dt(kElems(r)[j]) == Unsigned16)
+//@     && (ie(kElems(r)[j]).Name == "protocolIdentifier" ==> dt(kElems(r)[j]) == Unsigned8)
+//@     && (ie(kElems(r)[j]).Name == "packetTotalCount" ==> dt(kElems(r)[j]) == Unsigned64)
+//@     && (ie(kElems(r)[j]).Name == "octetTotalCount" ==> dt(kElems(r)[j]) == Unsigned64)
+//@     && (ie(kElems(r)[j]).Name == "packetDeltaCount" ==> dt(kElems(r)[j]) == Unsigned64)
+//@     && (ie(kElems(r)[j]).Name == "octetDeltaCount" ==> dt(kElems(r)[j]) == Unsigned64)
+//@     && (ie(kElems(r)[j]).Name == "reversePacketTotalCount" ==> dt(kElems(r)[j]) == Unsigned64)
+//@     && (ie(kElems(r)[j]).Name == "reverseOctetTotalCount" ==> dt(kElems(r)[j]) == Unsigned64)
+//@     && (ie(kElems(r)[j]).Name == "reversePacketDeltaCount" ==> dt(kElems(r)[j]) == Unsigned64)
+//@     && (ie(kElems(r)[j]).Name == "reverseOctetDeltaCount" ==> dt(kElems(r)[j]) == Unsigned64)
+//@     && (ie(kElems(r)[j]).Name == "sourcePodNamespace" ==> dt(kElems(r)[j]) == String)
+//@     && (ie(kElems(r)[j]).Name == "sourcePodName" ==> dt(kElems(r)[j]) == String)
+//@     && (ie(kElems(r)[j]).Name == "sourceNodeName" ==> dt(kElems(r)[j]) == String)
+//@     && (ie(kElems(r)[j]).Name == "destinationPodNamespace" ==> dt(kElems(r)[j]) == String)
+//@     && (ie(kElems(r)[j]).Name == "destinationPodName" ==> dt(kElems(r)[j]) == String)
+//@     && (ie(kElems(r)[j]).Name == "destinationNodeName" ==> dt(kElems(r)[j]) == String)
+//@     && (ie(kElems(r)[j]).Name == "destinationClusterIPv4" ==> (dt(kElems(r)[j]) == Ipv4Address || dt(kElems(r)[j]) == Ipv6Address))
+//@     && (ie(kElems(r)[j]).Name == "destinationClusterIPv6" ==> (dt(kElems(r)[j]) == Ipv4Address || dt(kElems(r)[j]) == Ipv6Address))
+//@     && (ie(kElems(r)[j]).Name == "destinationServicePort" ==> dt(kElems(r)[j]) == Unsigned16)
+//@     && (ie(kElems(r)[j]).Name == "destinationServicePortName" ==> dt(kElems(r)[j]) == String)
+//@     && (ie(kElems(r)[j]).Name == "ingressNetworkPolicyName" ==> dt(kElems(r)[j]) == String)
+//@     && (ie(kElems(r)[j]).Name == "ingressNetworkPolicyNamespace" ==> dt(kElems(r)[j]) == String)
+//@     && (ie(kElems(r)[j]).Name == "egressNetworkPolicyName" ==> dt(kElems(r)[j]) == String)
+//@     && (ie(kElems(r)[j]).Name == "egressNetworkPolicyNamespace" ==> dt(kElems(r)[j]) == String)
+//@ // kFlowType1Maps: what the flow message carries for element index j
+//@ pure kFlowType1Maps(m *protobuf.FlowType1, r entities.Record, j int) bool =
+//@     (kLast(r, "flowStartSeconds", j) ==> m.TimeFlowStartInSecs == kU32(kElems(r)[j]))
+//@     && (kLast(r, "flowEndSeconds", j) ==> m.TimeFlowEndInSecs == kU32(kElems(r)[j]))
+//@     && (kLast(r, "sourceTransportPort", j) ==> m.SrcPort == kU16(kElems(r)[j]))
+//@     && (kLast(r, "destinationTransportPort", j) ==> m.DstPort == kU16(kElems(r)[j]))
+//@     && (kLast(r, "protocolIdentifier", j) ==> m.Proto == kU8(kElems(r)[j]))
+//@     && (kLast(r, "packetTotalCount", j) ==> m.PacketsTotal == kU64(kElems(r)[j]))
+//@     && (kLast(r, "octetTotalCount", j) ==> m.BytesTotal == kU64(kElems(r)[j]))
+//@     && (kLast(r, "packetDeltaCount", j) ==> m.PacketsDelta == kU64(kElems(r)[j]))
+//@     && (kLast(r, "octetDeltaCount", j) ==> m.BytesDelta == kU64(kElems(r)[j]))
+//@     && (kLast(r, "reversePacketTotalCount", j) ==> m.ReversePacketsTotal == kU64(kElems(r)[j]))
+//@     && (kLast(r, "reverseOctetTotalCount", j) ==> m.ReverseBytesTotal == kU64(kElems(r)[j]))
+//@     && (kLast(r, "reversePacketDeltaCount", j) ==> m.ReversePacketsDelta == kU64(kElems(r)[j]))
+//@     && (kLast(r, "reverseOctetDeltaCount", j) ==> m.ReverseBytesDelta == kU64(kElems(r)[j]))
+//@     && (kLast(r, "sourcePodNamespace", j) ==> m.SrcPodNamespace == kStr(kElems(r)[j]))
+//@     && (kLast(r, "sourcePodName", j) ==> m.SrcPodName == kStr(kElems(r)[j]))
+//@     && (kLast(r, "sourceNodeName", j) ==> m.SrcNodeName == kStr(kElems(r)[j]))
+//@     && (kLast(r, "destinationPodNamespace", j) ==> m.DstPodNamespace == kStr(kElems(r)[j]))
+//@     && (kLast(r, "destinationPodName", j) ==> m.DstPodName == kStr(kElems(r)[j]))
+//@     && (kLast(r, "destinationNodeName", j) ==> m.DstNodeName == kStr(kElems(r)[j]))
+//@     && (kLast(r, "destinationServicePort", j) ==> m.DstServicePort == kU16(kElems(r)[j]))
+//@     && (kLast(r, "destinationServicePortName", j) ==> m.DstServicePortName == kStr(kElems(r)[j]))
+//@     && (kLast(r, "ingressNetworkPolicyName", j) ==> m.IngressPolicyName == kStr(kElems(r)[j]))
+//@     && (kLast(r, "ingressNetworkPolicyNamespace", j) ==> m.IngressPolicyNamespace == kStr(kElems(r)[j]))
+//@     && (kLast(r, "egressNetworkPolicyName", j) ==> m.EgressPolicyName == kStr(kElems(r)[j]))
+//@     && (kLast(r, "egressNetworkPolicyNamespace", j) ==> m.EgressPolicyNamespace == kStr(kElems(r)[j]))
 //@ func addAllFieldsToFlowType1(flowMsg, record) ()
 //@   requires nn: flowMsg != nil
+//@   requires rec: kRecOK(record) && kFlowType1Kinds(record)
+//@   given j0
+//@   ensures  f_TimeFlowStartInSecs: kLast(record, "flowStartSeconds", j0) ==> flowMsg.TimeFlowStartInSecs == kU32(kElems(record)[j0])
+//@   ensures  f_TimeFlowEndInSecs: kLast(record, "flowEndSeconds", j0) ==> flowMsg.TimeFlowEndInSecs == kU32(kElems(record)[j0])
+//@   ensures  f_SrcPort: kLast(record, "sourceTransportPort", j0) ==> flowMsg.SrcPort == kU16(kElems(record)[j0])
+//@   ensures  f_DstPort: kLast(record, "destinationTransportPort", j0) ==> flowMsg.DstPort == kU16(kElems(record)[j0])
+//@   ensures  f_Proto: kLast(record, "protocolIdentifier", j0) ==> flowMsg.Proto == kU8(kElems(record)[j0])
+//@   ensures  f_PacketsTotal: kLast(record, "packetTotalCount", j0) ==> flowMsg.PacketsTotal == kU64(kElems(record)[j0])
+//@   ensures  f_BytesTotal: kLast(record, "octetTotalCount", j0) ==> flowMsg.BytesTotal == kU64(kElems(record)[j0])
+//@   ensures  f_PacketsDelta: kLast(record, "packetDeltaCount", j0) ==> flowMsg.PacketsDelta == kU64(kElems(record)[j0])
+//@   ensures  f_BytesDelta: kLast(record, "octetDeltaCount", j0) ==> flowMsg.BytesDelta == kU64(kElems(record)[j0])
+//@   ensures  f_ReversePacketsTotal: kLast(record, "reversePacketTotalCount", j0) ==> flowMsg.ReversePacketsTotal == kU64(kElems(record)[j0])
+//@   ensures  f_ReverseBytesTotal: kLast(record, "reverseOctetTotalCount", j0) ==> flowMsg.ReverseBytesTotal == kU64(kElems(record)[j0])
+//@   ensures  f_ReversePacketsDelta: kLast(record, "reversePacketDeltaCount", j0) ==> flowMsg.ReversePacketsDelta == kU64(kElems(record)[j0])
+//@   ensures  f_ReverseBytesDelta: kLast(record, "reverseOctetDeltaCount", j0) ==> flowMsg.ReverseBytesDelta == kU64(kElems(record)[j0])
+//@   ensures  f_SrcPodNamespace: kLast(record, "sourcePodNamespace", j0) ==> flowMsg.SrcPodNamespace == kStr(kElems(record)[j0])
+//@   ensures  f_SrcPodName: kLast(record, "sourcePodName", j0) ==> flowMsg.SrcPodName == kStr(kElems(record)[j0])
+//@   ensures  f_SrcNodeName: kLast(record, "sourceNodeName", j0) ==> flowMsg.SrcNodeName == kStr(kElems(record)[j0])
+//@   ensures  f_DstPodNamespace: kLast(record, "destinationPodNamespace", j0) ==> flowMsg.DstPodNamespace == kStr(kElems(record)[j0])
+//@   ensures  f_DstPodName: kLast(record, "destinationPodName", j0) ==> flowMsg.DstPodName == kStr(kElems(record)[j0])
+//@   ensures  f_DstNodeName: kLast(record, "destinationNodeName", j0) ==> flowMsg.DstNodeName == kStr(kElems(record)[j0])
+//@   ensures  f_DstServicePort: kLast(record, "destinationServicePort", j0) ==> flowMsg.DstServicePort == kU16(kElems(record)[j0])
+//@   ensures  f_DstServicePortName: kLast(record, "destinationServicePortName", j0) ==> flowMsg.DstServicePortName == kStr(kElems(record)[j0])
+//@   ensures  f_IngressPolicyName: kLast(record, "ingressNetworkPolicyName", j0) ==> flowMsg.IngressPolicyName == kStr(kElems(record)[j0])
+//@   ensures  f_IngressPolicyNamespace: kLast(record, "ingressNetworkPolicyNamespace", j0) ==> flowMsg.IngressPolicyNamespace == kStr(kElems(record)[j0])
+//@   ensures  f_EgressPolicyName: kLast(record, "egressNetworkPolicyName", j0) ==> flowMsg.EgressPolicyName == kStr(kElems(record)[j0])
+//@   ensures  f_EgressPolicyNamespace: kLast(record, "egressNetworkPolicyNamespace", j0) ==> flowMsg.EgressPolicyNamespace == kStr(kElems(record)[j0])
+//@   ensures  maps: kFlowType1Maps(flowMsg, record, j0)
 //@   modifies flowMsg.TimeFlowStartInSecs, flowMsg.TimeFlowEndInSecs, flowMsg.TimeFlowStartInMilliSecs, flowMsg.TimeFlowEndInMilliSecs, flowMsg.SrcIP, flowMsg.DstIP, flowMsg.SrcPort, flowMsg.DstPort, flowMsg.Proto, flowMsg.PacketsTotal, flowMsg.BytesTotal, flowMsg.PacketsDelta, flowMsg.BytesDelta, flowMsg.ReversePacketsTotal, flowMsg.ReverseBytesTotal, flowMsg.ReversePacketsDelta, flowMsg.ReverseBytesDelta, flowMsg.SrcPodName, flowMsg.SrcPodNamespace, flowMsg.SrcNodeName, flowMsg.DstPodName, flowMsg.DstPodNamespace, flowMsg.DstNodeName, flowMsg.DstClusterIP, flowMsg.DstServicePort, flowMsg.DstServicePortName, flowMsg.IngressPolicyName, flowMsg.IngressPolicyNamespace, flowMsg.EgressPolicyName, flowMsg.EgressPolicyNamespace
-//@   trusted
+//@   loop 1 invariant cnt: 0 <= $i && $i <= len(kElems(record))
+//@   loop 1 invariant f_TimeFlowStartInSecs: kLastTo(record, "flowStartSeconds", j0, $i) ==> flowMsg.TimeFlowStartInSecs == kU32(kElems(record)[j0])
+//@   loop 1 invariant f_TimeFlowEndInSecs: kLastTo(record, "flowEndSeconds", j0, $i) ==> flowMsg.TimeFlowEndInSecs == kU32(kElems(record)[j0])
+//@   loop 1 invariant f_SrcPort: kLastTo(record, "sourceTransportPort", j0, $i) ==> flowMsg.SrcPort == kU16(kElems(record)[j0])
+//@   loop 1 invariant f_DstPort: kLastTo(record, "destinationTransportPort", j0, $i) ==> flowMsg.DstPort == kU16(kElems(record)[j0])
+//@   loop 1 invariant f_Proto: kLastTo(record, "protocolIdentifier", j0, $i) ==> flowMsg.Proto == kU8(kElems(record)[j0])
+//@   loop 1 invariant f_PacketsTotal: kLastTo(record, "packetTotalCount", j0, $i) ==> flowMsg.PacketsTotal == kU64(kElems(record)[j0])
+//@   loop 1 invariant f_BytesTotal: kLastTo(record, "octetTotalCount", j0, $i) ==> flowMsg.BytesTotal == kU64(kElems(record)[j0])
+//@   loop 1 invariant f_PacketsDelta: kLastTo(record, "packetDeltaCount", j0, $i) ==> flowMsg.PacketsDelta == kU64(kElems(record)[j0])
+//@   loop 1 invariant f_BytesDelta: kLastTo(record, "octetDeltaCount", j0, $i) ==> flowMsg.BytesDelta == kU64(kElems(record)[j0])
+//@   loop 1 invariant f_ReversePacketsTotal: kLastTo(record, "reversePacketTotalCount", j0, $i) ==> flowMsg.ReversePacketsTotal == kU64(kElems(record)[j0])
+//@   loop 1 invariant f_ReverseBytesTotal: kLastTo(record, "reverseOctetTotalCount", j0, $i) ==> flowMsg.ReverseBytesTotal == kU64(kElems(record)[j0])
+//@   loop 1 invariant f_ReversePacketsDelta: kLastTo(record, "reversePacketDeltaCount", j0, $i) ==> flowMsg.ReversePacketsDelta == kU64(kElems(record)[j0])
+//@   loop 1 invariant f_ReverseBytesDelta: kLastTo(record, "reverseOctetDeltaCount", j0, $i) ==> flowMsg.ReverseBytesDelta == kU64(kElems(record)[j0])
+//@   loop 1 invariant f_SrcPodNamespace: kLastTo(record, "sourcePodNamespace", j0, $i) ==> flowMsg.SrcPodNamespace == kStr(kElems(record)[j0])
+//@   loop 1 invariant f_SrcPodName: kLastTo(record, "sourcePodName", j0, $i) ==> flowMsg.SrcPodName == kStr(kElems(record)[j0])
+//@   loop 1 invariant f_SrcNodeName: kLastTo(record, "sourceNodeName", j0, $i) ==> flowMsg.SrcNodeName == kStr(kElems(record)[j0])
+//@   loop 1 invariant f_DstPodNamespace: kLastTo(record, "destinationPodNamespace", j0, $i) ==> flowMsg.DstPodNamespace == kStr(kElems(record)[j0])
+//@   loop 1 invariant f_DstPodName: kLastTo(record, "destinationPodName", j0, $i) ==> flowMsg.DstPodName == kStr(kElems(record)[j0])
+//@   loop 1 invariant f_DstNodeName: kLastTo(record, "destinationNodeName", j0, $i) ==> flowMsg.DstNodeName == kStr(kElems(record)[j0])
+//@   loop 1 invariant f_DstServicePort: kLastTo(record, "destinationServicePort", j0, $i) ==> flowMsg.DstServicePort == kU16(kElems(record)[j0])
+//@   loop 1 invariant f_DstServicePortName: kLastTo(record, "destinationServicePortName", j0, $i) ==> flowMsg.DstServicePortName == kStr(kElems(record)[j0])
+//@   loop 1 invariant f_IngressPolicyName: kLastTo(record, "ingressNetworkPolicyName", j0, $i) ==> flowMsg.IngressPolicyName == kStr(kElems(record)[j0])
+//@   loop 1 invariant f_IngressPolicyNamespace: kLastTo(record, "ingressNetworkPolicyNamespace", j0, $i) ==> flowMsg.IngressPolicyNamespace == kStr(kElems(record)[j0])
+//@   loop 1 invariant f_EgressPolicyName: kLastTo(record, "egressNetworkPolicyName", j0, $i) ==> flowMsg.EgressPolicyName == kStr(kElems(record)[j0])
+//@   loop 1 invariant f_EgressPolicyNamespace: kLastTo(record, "egressNetworkPolicyNamespace", j0, $i) ==> flowMsg.EgressPolicyNamespace == kStr(kElems(record)[j0])
+
+//@ // kFlowType2Kinds: the elements the convertor reads have the data type its getter needs (the getters panic otherwise)
+//@ pure kFlowType2Kinds(r entities.Record) bool = forall j in [0, len(kElems(r))):
+//@     (ie(kElems(r)[j]).Name == "flowStartSeconds" ==> kIsU32(kElems(r)[j]))
+//@     && (ie(kElems(r)[j]).Name == "flowEndSeconds" ==> kIsU32(kElems(r)[j]))
+//@     && (ie(kElems(r)[j]).Name == "sourceIPv4Address" ==> (dt(kElems(r)[j]) == Ipv4Address || dt(kElems(r)[j]) == Ipv6Address))
+//@     && (ie(kElems(r)[j]).Name == "sourceIPv6Address" ==> (dt(kElems(r)[j]) == Ipv4Address || dt(kElems(r)[j]) == Ipv6Address))
+//@     && (ie(kElems(r)[j]).Name == "destinationIPv4Address" ==> (dt(kElems(r)[j]) == Ipv4Address || dt(kElems(r)[j]) == Ipv6Address))
+//@     && (ie(kElems(r)[j]).Name == "destinationIPv6Address" ==> (dt(kElems(r)[j]) == Ipv4Address || dt(kElems(r)[j]) == Ipv6Address))
+//@     && (ie(kElems(r)[j]).Name == "sourceTransportPort" ==> dt(kElems(r)[j]) == Unsigned16)
+//@     && (ie(kElems(r)[j]).Name == "destinationTransportPort" ==> dt(kElems(r)[j]) == Unsigned16)
+//@     && (ie(kElems(r)[j]).Name == "protocolIdentifier" ==> dt(kElems(r)[j]) == Unsigned8)
+//@     && (ie(kElems(r)[j]).Name == "packetTotalCount" ==> dt(kElems(r)[j]) == Unsigned64)
+//@     && (ie(kElems(r)[j]).Name == "octetTotalCount" ==> dt(kElems(r)[j]) == Unsigned64)
+//@     && (ie(kElems(r)[j]).Name == "packetDeltaCount" ==> dt(kElems(r)[j]) == Unsigned64)
+//@     && (ie(kElems(r)[j]).Name == "octetDeltaCount" ==> dt(kElems(r)[j]) == Unsigned64)
+//@     && (ie(kElems(r)[j]).Name == "reversePacketTotalCount" ==> dt(kElems(r)[j]) == Unsigned64)
+//@     && (ie(kElems(r)[j]).Name == "reverseOctetTotalCount" ==> dt(kElems(r)[j]) == Unsigned64)
+//@     && (ie(kElems(r)[j]).Name == "reversePacketDeltaCount" ==> dt(kElems(r)[j]) == Unsigned64)
+//@     && (ie(kElems(r)[j]).Name == "reverseOctetDeltaCount" ==> dt(kElems(r)[j]) == Unsigned64)
+//@     && (ie(kElems(r)[j]).Name == "sourcePodNamespace" ==> dt(kElems(r)[j]) == String)
+//@     && (ie(kElems(r)[j]).Name == "sourcePodName" ==> dt(kElems(r)[j]) == String)
+//@     && (ie(kElems(r)[j]).Name == "sourceNodeName" ==> dt(kElems(r)[j]) == String)
+//@     && (ie(kElems(r)[j]).Name == "destinationPodNamespace" ==> dt(kElems(r)[j]) == String)
+//@     && (ie(kElems(r)[j]).Name == "destinationPodName" ==> dt(kElems(r)[j]) == String)
+//@     && (ie(kElems(r)[j]).Name == "destinationNodeName" ==> dt(kElems(r)[j]) == String)
+//@     && (ie(kElems(r)[j]).Name == "destinationClusterIPv4" ==> (dt(kElems(r)[j]) == Ipv4Address || dt(kElems(r)[j]) == Ipv6Address))
+//@     && (ie(kElems(r)[j]).Name == "destinationClusterIPv6" ==> (dt(kElems(r)[j]) == Ipv4Address || dt(kElems(r)[j]) == Ipv6Address))
+//@     && (ie(kElems(r)[j]).Name == "destinationServicePort" ==> dt(kElems(r)[j]) == Unsigned16)
+//@     && (ie(kElems(r)[j]).Name == "destinationServicePortName" ==> dt(kElems(r)[j]) == String)
+//@     && (ie(kElems(r)[j]).Name == "ingressNetworkPolicyName" ==> dt(kElems(r)[j]) == String)
+//@     && (ie(kElems(r)[j]).Name == "ingressNetworkPolicyNamespace" ==> dt(kElems(r)[j]) == String)
+//@     && (ie(kElems(r)[j]).Name == "egressNetworkPolicyName" ==> dt(kElems(r)[j]) == String)
+//@     && (ie(kElems(r)[j]).Name == "egressNetworkPolicyNamespace" ==> dt(kElems(r)[j]) == String)
+//@ // kFlowType2Maps: what the flow message carries for element index j
+//@ pure kFlowType2Maps(m *protobuf.FlowType2, r entities.Record, j int) bool =
+//@     (kLast(r, "flowStartSeconds", j) ==> m.TimeFlowStartInSecs == kU32(kElems(r)[j]))
+//@     && (kLast(r, "flowEndSeconds", j) ==> m.TimeFlowEndInSecs == kU32(kElems(r)[j]))
+//@     && (kLast(r, "sourceTransportPort", j) ==> m.SrcPort == kU16(kElems(r)[j]))
+//@     && (kLast(r, "destinationTransportPort", j) ==> m.DstPort == kU16(kElems(r)[j]))
+//@     && (kLast(r, "protocolIdentifier", j) ==> m.Proto == kU8(kElems(r)[j]))
+//@     && (kLast(r, "packetTotalCount", j) ==> m.PacketsTotal == kU64(kElems(r)[j]))
+//@     && (kLast(r, "octetTotalCount", j) ==> m.BytesTotal == kU64(kElems(r)[j]))
+//@     && (kLast(r, "packetDeltaCount", j) ==> m.PacketsDelta == kU64(kElems(r)[j]))
+//@     && (kLast(r, "octetDeltaCount", j) ==> m.BytesDelta == kU64(kElems(r)[j]))
+//@     && (kLast(r, "reversePacketTotalCount", j) ==> m.ReversePacketsTotal == kU64(kElems(r)[j]))
+//@     && (kLast(r, "reverseOctetTotalCount", j) ==> m.ReverseBytesTotal == kU64(kElems(r)[j]))
+//@     && (kLast(r, "reversePacketDeltaCount", j) ==> m.ReversePacketsDelta == kU64(kElems(r)[j]))
+//@     && (kLast(r, "reverseOctetDeltaCount", j) ==> m.ReverseBytesDelta == kU64(kElems(r)[j]))
+//@     && (kLast(r, "sourcePodNamespace", j) ==> m.SrcPodNamespace == kStr(kElems(r)[j]))
+//@     && (kLast(r, "sourcePodName", j) ==> m.SrcPodName == kStr(kElems(r)[j]))
+//@     && (kLast(r, "sourceNodeName", j) ==> m.SrcNodeName == kStr(kElems(r)[j]))
+//@     && (kLast(r, "destinationPodNamespace", j) ==> m.DstPodNamespace == kStr(kElems(r)[j]))
+//@     && (kLast(r, "destinationPodName", j) ==> m.DstPodName == kStr(kElems(r)[j]))
+//@     && (kLast(r, "destinationNodeName", j) ==> m.DstNodeName == kStr(kElems(r)[j]))
+//@     && (kLast(r, "destinationServicePort", j) ==> m.DstServicePort == kU16(kElems(r)[j]))
+//@     && (kLast(r, "destinationServicePortName", j) ==> m.DstServicePortName == kStr(kElems(r)[j]))
+//@     && (kLast(r, "ingressNetworkPolicyName", j) ==> m.IngressPolicyName == kStr(kElems(r)[j]))
+//@     && (kLast(r, "ingressNetworkPolicyNamespace", j) ==> m.IngressPolicyNamespace == kStr(kElems(r)[j]))
+//@     && (kLast(r, "egressNetworkPolicyName", j) ==> m.EgressPolicyName == kStr(kElems(r)[j]))
+//@     && (kLast(r, "egressNetworkPolicyNamespace", j) ==> m.EgressPolicyNamespace == kStr(kElems(r)[j]))
+//@ func addAllFieldsToFlowType2(flowMsg, record) ()
+//@   requires nn: flowMsg != nil
+//@   requires rec: kRecOK(record) && kFlowType2Kinds(record)
+//@   given j0
+//@   ensures  f_TimeFlowStartInSecs: kLast(record, "flowStartSeconds", j0) ==> flowMsg.TimeFlowStartInSecs == kU32(kElems(record)[j0])
+//@   ensures  f_TimeFlowEndInSecs: kLast(record, "flowEndSeconds", j0) ==> flowMsg.TimeFlowEndInSecs == kU32(kElems(record)[j0])
+//@   ensures  f_SrcPort: kLast(record, "sourceTransportPort", j0) ==> flowMsg.SrcPort == kU16(kElems(record)[j0])
+//@   ensures  f_DstPort: kLast(record, "destinationTransportPort", j0) ==> flowMsg.DstPort == kU16(kElems(record)[j0])
+//@   ensures  f_Proto: kLast(record, "protocolIdentifier", j0) ==> flowMsg.Proto == kU8(kElems(record)[j0])
+//@   ensures  f_PacketsTotal: kLast(record, "packetTotalCount", j0) ==> flowMsg.PacketsTotal == kU64(kElems(record)[j0])
+//@   ensures  f_BytesTotal: kLast(record, "octetTotalCount", j0) ==> flowMsg.BytesTotal == kU64(kElems(record)[j0])
+//@   ensures  f_PacketsDelta: kLast(record, "packetDeltaCount", j0) ==> flowMsg.PacketsDelta == kU64(kElems(record)[j0])
+//@   ensures  f_BytesDelta: kLast(record, "octetDeltaCount", j0) ==> flowMsg.BytesDelta == kU64(kElems(record)[j0])
+//@   ensures  f_ReversePacketsTotal: kLast(record, "reversePacketTotalCount", j0) ==> flowMsg.ReversePacketsTotal == kU64(kElems(record)[j0])
+//@   ensures  f_ReverseBytesTotal: kLast(record, "reverseOctetTotalCount", j0) ==> flowMsg.ReverseBytesTotal == kU64(kElems(record)[j0])
+//@   ensures  f_ReversePacketsDelta: kLast(record, "reversePacketDeltaCount", j0) ==> flowMsg.ReversePacketsDelta == kU64(kElems(record)[j0])
+//@   ensures  f_ReverseBytesDelta: kLast(record, "reverseOctetDeltaCount", j0) ==> flowMsg.ReverseBytesDelta == kU64(kElems(record)[j0])
+//@   ensures  f_SrcPodNamespace: kLast(record, "sourcePodNamespace", j0) ==> flowMsg.SrcPodNamespace == kStr(kElems(record)[j0])
+//@   ensures  f_SrcPodName: kLast(record, "sourcePodName", j0) ==> flowMsg.SrcPodName == kStr(kElems(record)[j0])
+//@   ensures  f_SrcNodeName: kLast(record, "sourceNodeName", j0) ==> flowMsg.SrcNodeName == kStr(kElems(record)[j0])
+//@   ensures  f_DstPodNamespace: kLast(record, "destinationPodNamespace", j0) ==> flowMsg.DstPodNamespace == kStr(kElems(record)[j0])
+//@   ensures  f_DstPodName: kLast(record, "destinationPodName", j0) ==> flowMsg.DstPodName == kStr(kElems(record)[j0])
+//@   ensures  f_DstNodeName: kLast(record, "destinationNodeName", j0) ==> flowMsg.DstNodeName == kStr(kElems(record)[j0])
+//@   ensures  f_DstServicePort: kLast(record, "destinationServicePort", j0) ==> flowMsg.DstServicePort == kU16(kElems(record)[j0])
+//@   ensures  f_DstServicePortName: kLast(record, "destinationServicePortName", j0) ==> flowMsg.DstServicePortName == kStr(kElems(record)[j0])
+//@   ensures  f_IngressPolicyName: kLast(record, "ingressNetworkPolicyName", j0) ==> flowMsg.IngressPolicyName == kStr(kElems(record)[j0])
+//@   ensures  f_IngressPolicyNamespace: kLast(record, "ingressNetworkPolicyNamespace", j0) ==> flowMsg.IngressPolicyNamespace == kStr(kElems(record)[j0])
+//@   ensures  f_EgressPolicyName: kLast(record, "egressNetworkPolicyName", j0) ==> flowMsg.EgressPolicyName == kStr(kElems(record)[j0])
+//@   ensures  f_EgressPolicyNamespace: kLast(record, "egressNetworkPolicyNamespace", j0) ==> flowMsg.EgressPolicyNamespace == kStr(kElems(record)[j0])
+//@   ensures  maps: kFlowType2Maps(flowMsg, record, j0)
+//@   modifies flowMsg.TimeFlowStartInSecs, flowMsg.TimeFlowEndInSecs, flowMsg.TimeFlowStartInMilliSecs, flowMsg.TimeFlowEndInMilliSecs, flowMsg.FlowEndReason, flowMsg.TcpState, flowMsg.SrcIP, flowMsg.DstIP, flowMsg.SrcPort, flowMsg.DstPort, flowMsg.Proto, flowMsg.PacketsTotal, flowMsg.BytesTotal, flowMsg.PacketsDelta, flowMsg.BytesDelta, flowMsg.ReversePacketsTotal, flowMsg.ReverseBytesTotal, flowMsg.ReversePacketsDelta, flowMsg.ReverseBytesDelta, flowMsg.SrcPodName, flowMsg.SrcPodNamespace, flowMsg.SrcNodeName, flowMsg.DstPodName, flowMsg.DstPodNamespace, flowMsg.DstNodeName, flowMsg.DstClusterIP, flowMsg.DstServicePort, flowMsg.DstServicePortName, flowMsg.IngressPolicyName, flowMsg.IngressPolicyNamespace, flowMsg.EgressPolicyName, flowMsg.EgressPolicyNamespace
+//@   loop 1 invariant cnt: 0 <= $i && $i <= len(kElems(record))
+//@   loop 1 invariant f_TimeFlowStartInSecs: kLastTo(record, "flowStartSeconds", j0, $i) ==> flowMsg.TimeFlowStartInSecs == kU32(kElems(record)[j0])
+//@   loop 1 invariant f_TimeFlowEndInSecs: kLastTo(record, "flowEndSeconds", j0, $i) ==> flowMsg.TimeFlowEndInSecs == kU32(kElems(record)[j0])
+//@   loop 1 invariant f_SrcPort: kLastTo(record, "sourceTransportPort", j0, $i) ==> flowMsg.SrcPort == kU16(kElems(record)[j0])
+//@   loop 1 invariant f_DstPort: kLastTo(record, "destinationTransportPort", j0, $i) ==> flowMsg.DstPort == kU16(kElems(record)[j0])
+//@   loop 1 invariant f_Proto: kLastTo(record, "protocolIdentifier", j0, $i) ==> flowMsg.Proto == kU8(kElems(record)[j0])
+//@   loop 1 invariant f_PacketsTotal: kLastTo(record, "packetTotalCount", j0, $i) ==> flowMsg.PacketsTotal == kU64(kElems(record)[j0])
+//@   loop 1 invariant f_BytesTotal: kLastTo(record, "octetTotalCount", j0, $i) ==> flowMsg.BytesTotal == kU64(kElems(record)[j0])
+//@   loop 1 invariant f_PacketsDelta: kLastTo(record, "packetDeltaCount", j0, $i) ==> flowMsg.PacketsDelta == kU64(kElems(record)[j0])
+//@   loop 1 invariant f_BytesDelta: kLastTo(record, "octetDeltaCount", j0, $i) ==> flowMsg.BytesDelta == kU64(kElems(record)[j0])
+//@   loop 1 invariant f_ReversePacketsTotal: kLastTo(record, "reversePacketTotalCount", j0, $i) ==> flowMsg.ReversePacketsTotal == kU64(kElems(record)[j0])
+//@   loop 1 invariant f_ReverseBytesTotal: kLastTo(record, "reverseOctetTotalCount", j0, $i) ==> flowMsg.ReverseBytesTotal == kU64(kElems(record)[j0])
+//@   loop 1 invariant f_ReversePacketsDelta: kLastTo(record, "reversePacketDeltaCount", j0, $i) ==> flowMsg.ReversePacketsDelta == kU64(kElems(record)[j0])
+//@   loop 1 invariant f_ReverseBytesDelta: kLastTo(record, "reverseOctetDeltaCount", j0, $i) ==> flowMsg.ReverseBytesDelta == kU64(kElems(record)[j0])
+//@   loop 1 invariant f_SrcPodNamespace: kLastTo(record, "sourcePodNamespace", j0, $i) ==> flowMsg.SrcPodNamespace == kStr(kElems(record)[j0])
+//@   loop 1 invariant f_SrcPodName: kLastTo(record, "sourcePodName", j0, $i) ==> flowMsg.SrcPodName == kStr(kElems(record)[j0])
+//@   loop 1 invariant f_SrcNodeName: kLastTo(record, "sourceNodeName", j0, $i) ==> flowMsg.SrcNodeName == kStr(kElems(record)[j0])
+//@   loop 1 invariant f_DstPodNamespace: kLastTo(record, "destinationPodNamespace", j0, $i) ==> flowMsg.DstPodNamespace == kStr(kElems(record)[j0])
+//@   loop 1 invariant f_DstPodName: kLastTo(record, "destinationPodName", j0, $i) ==> flowMsg.DstPodName == kStr(kElems(record)[j0])
+//@   loop 1 invariant f_DstNodeName: kLastTo(record, "destinationNodeName", j0, $i) ==> flowMsg.DstNodeName == kStr(kElems(record)[j0])
+//@   loop 1 invariant f_DstServicePort: kLastTo(record, "destinationServicePort", j0, $i) ==> flowMsg.DstServicePort == kU16(kElems(record)[j0])
+//@   loop 1 invariant f_DstServicePortName: kLastTo(record, "destinationServicePortName", j0, $i) ==> flowMsg.DstServicePortName == kStr(kElems(record)[j0])
+//@   loop 1 invariant f_IngressPolicyName: kLastTo(record, "ingressNetworkPolicyName", j0, $i) ==> flowMsg.IngressPolicyName == kStr(kElems(record)[j0])
+//@   loop 1 invariant f_IngressPolicyNamespace: kLastTo(record, "ingressNetworkPolicyNamespace", j0, $i) ==> flowMsg.IngressPolicyNamespace == kStr(kElems(record)[j0])
+//@   loop 1 invariant f_EgressPolicyName: kLastTo(record, "egressNetworkPolicyName", j0, $i) ==> flowMsg.EgressPolicyName == kStr(kElems(record)[j0])
+//@   loop 1 invariant f_EgressPolicyNamespace: kLastTo(record, "egressNetworkPolicyNamespace", j0, $i) ==> flowMsg.EgressPolicyNamespace == kStr(kElems(record)[j0])
 
 //@ func (c *convertRecordToFlowType1) ConvertIPFIXMsgToFlowMsgs(msg) (r)
 //@   requires msg: msg != nil && is(msg.set, *entities.set) && msg.set.(*entities.set) != nil
 //@   ensures  tpl:  msg.set.(*entities.set).setType == Template ==> len(r) == 0
 //@   ensures  data: msg.set.(*entities.set).setType != Template ==> len(r) == len(msg.set.(*entities.set).records)
 //@   ensures  nn:   forall i in [0, len(r)): !isnil(r[i])
+//@   // field mapping: the i0-th flow message carries, for every mapped field, the value of the i0-th record's last element of the mapped name
+//@   requires recs: forall i in [0, len(kMsgRecs(msg))): kRecOK(kMsgRecs(msg)[i]) && kFlowType1Kinds(kMsgRecs(msg)[i])
+//@   given i0, j0
+//@   ensures  fields: 0 <= i0 && i0 < len(r) ==> kFlowType1Maps(r[i0].(*protobuf.FlowType1), kMsgRecs(msg)[i0], j0)
+//@   loop 1 invariant fields: 0 <= i0 && i0 < $i ==> kFlowType1Maps(flowMsgs[i0].(*protobuf.FlowType1), kMsgRecs(msg)[i0], j0)
 //@   replay kafka
 //@   // every flow message is built with the message's export time, sequence number, observation domain and exporter address
 //@   // one flow message object per record: no two entries are views of the same message object
@@ -28,17 +283,16 @@ package test
 //@   loop 1 invariant cnt: 0 <= $i && $i <= len(records) && len(flowMsgs) == len(records) && fresh(flowMsgs) && records == msg.set.(*entities.set).records
 //@   loop 1 invariant nn:  forall i in [0, $i): !isnil(flowMsgs[i])
 
-//@ // frame only: the field-by-field mapping of record elements to FlowType2 fields is NOT specified; the header fields are not touched
-//@ func addAllFieldsToFlowType2(flowMsg, record) ()
-//@   requires nn: flowMsg != nil
-//@   modifies flowMsg.TimeFlowStartInSecs, flowMsg.TimeFlowEndInSecs, flowMsg.TimeFlowStartInMilliSecs, flowMsg.TimeFlowEndInMilliSecs, flowMsg.FlowEndReason, flowMsg.TcpState, flowMsg.SrcIP, flowMsg.DstIP, flowMsg.SrcPort, flowMsg.DstPort, flowMsg.Proto, flowMsg.PacketsTotal, flowMsg.BytesTotal, flowMsg.PacketsDelta, flowMsg.BytesDelta, flowMsg.ReversePacketsTotal, flowMsg.ReverseBytesTotal, flowMsg.ReversePacketsDelta, flowMsg.ReverseBytesDelta, flowMsg.SrcPodName, flowMsg.SrcPodNamespace, flowMsg.SrcNodeName, flowMsg.DstPodName, flowMsg.DstPodNamespace, flowMsg.DstNodeName, flowMsg.DstClusterIP, flowMsg.DstServicePort, flowMsg.DstServicePortName, flowMsg.IngressPolicyName, flowMsg.IngressPolicyNamespace, flowMsg.EgressPolicyName, flowMsg.EgressPolicyNamespace
-//@   trusted
-
 //@ func (c *convertRecordToFlowType2) ConvertIPFIXMsgToFlowMsgs(msg) (r)
 //@   requires msg: msg != nil && is(msg.set, *entities.set) && msg.set.(*entities.set) != nil
 //@   ensures  tpl:  msg.set.(*entities.set).setType == Template ==> len(r) == 0
 //@   ensures  data: msg.set.(*entities.set).setType != Template ==> len(r) == len(msg.set.(*entities.set).records)
 //@   ensures  nn:   forall i in [0, len(r)): !isnil(r[i])
+//@   // field mapping: the i0-th flow message carries, for every mapped field, the value of the i0-th record's last element of the mapped name
+//@   requires recs: forall i in [0, len(kMsgRecs(msg))): kRecOK(kMsgRecs(msg)[i]) && kFlowType2Kinds(kMsgRecs(msg)[i])
+//@   given i0, j0
+//@   ensures  fields: 0 <= i0 && i0 < len(r) ==> kFlowType2Maps(r[i0].(*protobuf.FlowType2), kMsgRecs(msg)[i0], j0)
+//@   loop 1 invariant fields: 0 <= i0 && i0 < $i ==> kFlowType2Maps(flowMsgs[i0].(*protobuf.FlowType2), kMsgRecs(msg)[i0], j0)
 //@   replay kafka
 //@   // every flow message is built with the message's export time, sequence number, observation domain and exporter address
 //@   // one flow message object per record: no two entries are views of the same message object
